@@ -250,8 +250,9 @@ func runRecoveryP(fields []string, logMode int) string {
 		case "B":
 			c.Writer().WriteHeader(202)
 			_, _ = c.Writer().Write([]byte("partial"))
-		case "F":
-			// a flush before anything was written commits the implicit 200 header (e.g. the start of an event stream)
+		case "F", "E":
+			// a flush before anything was written commits the implicit 200 header (e.g. the start of an event stream);
+			// "E": the client connection has FlushError itself, as the writer of the net/http server has
 			_ = c.Writer().FlushError()
 		case "S":
 			_, _ = c.Writer().WriteString("partial")
@@ -377,6 +378,8 @@ func runRecoveryP(fields []string, logMode int) string {
 		}()
 		if progress == "F" {
 			f.ServeHTTP(recFlusher{rw}, req)
+		} else if progress == "E" {
+			f.ServeHTTP(recFlushErr{recFlusher{rw}}, req)
 		} else {
 			f.ServeHTTP(rw, req)
 		}
@@ -710,6 +713,14 @@ func (w recFlusher) Flush() {
 	w.events = append(w.events, "f")
 }
 
+// recFlushErr: a connection with FlushError (and Flush), as net/http's own response writer
+type recFlushErr struct{ recFlusher }
+
+func (w recFlushErr) FlushError() error {
+	w.Flush()
+	return nil
+}
+
 func genRecovery(r *Rng, tier string, n int, emit func(string)) {
 	emitted := 0
 	// every value x progress x scope once, with random headers
@@ -752,6 +763,11 @@ func genRecovery(r *Rng, tier string, n int, emit func(string)) {
 			emit("recovery\tT\t" + kind + "\t" + v + "\t0\tp0")
 			emitted++
 		}
+	}
+	// the flush of a connection that has FlushError of its own, in every scope (not counted: the other cases of a seed
+	// stay what they were)
+	for i, s := range []string{"route", "mw", "noroute", "routets", "routehost", "nomethod", "options", "redirect"} {
+		emit("recovery\tP\t" + recValues[i%len(recValues)] + "\tE\t" + s + "\t" + hx("X-Trace") + "=" + hx(fmt.Sprintf("e%d", i)))
 	}
 	for emitted < n {
 		k++
